@@ -83,6 +83,16 @@ func (x *Exec) callFn(callee *ssa.Function, bind []Value, args []Value, st *Stat
 		x.obligs = saveO
 		return x.b.Forall([]*Term{k}, body.(*Term))
 	}
+	if callee.Name() == "vsFreshMap" && len(args) == 1 {
+		// ghost built-in: the map object was created by the function under
+		// verification (it cannot alias anything the caller holds)
+		if m, ok := args[0].(*MapV); ok {
+			if m.Fresh == nil {
+				return x.b.False()
+			}
+			return x.b.And(x.b.Not(x.mapNil(m)), m.Fresh)
+		}
+	}
 	if callee.Name() == "vsGhostMem" && len(args) == 1 {
 		// ghost built-in: the interface value is governed by the interface
 		// call rule (an opaque, user-supplied Memory), i.e. g describes it
@@ -315,7 +325,19 @@ func (x *Exec) builtin(name string, call *ssa.CallCommon, args []Value, st *Stat
 		case *StrV:
 			return a.Len
 		case *MapV:
-			unsupported("len(map)")
+			// partial specification of len on maps: non-negative, and zero exactly
+			// for a nil or empty map
+			n := b.Fresh("maplen", BV(64))
+			x.assume(b.Implies(pc, b.Not(b.Cmp("bvslt", n, b.Const(64, 0)))))
+			if a.Obj == nil {
+				return b.Const(64, 0)
+			}
+			ks, _ := mapObjSorts(a.T)
+			pres := st.h[a.Obj].(*StructV).F[0].(*Term)
+			kk := b.BoundVar("k", ks)
+			empty := b.Or(x.mapNil(a), b.Forall([]*Term{kk}, b.Not(b.Select(pres, kk))))
+			x.assume(b.Implies(pc, b.Eq(b.Eq(n, b.Const(64, 0)), empty)))
+			return n
 		case *Term:
 			if at, ok := call.Args[0].Type().Underlying().(*types.Array); ok {
 				return b.Const(64, uint64(at.Len()))
